@@ -312,6 +312,7 @@ func (fr *frame) applyContract(fn *ssa.Function, ct *Contract, args []*Val, resT
 	na := u.declare("alloc@call", "Int")
 	u.assume(reach, fmt.Sprintf("(>= %s %s)", na, st.alloc))
 	st.alloc = na
+	fr.flushMapWF(st)
 	res := fr.unconstrained(resT, "res."+fn.Name(), st, reach)
 	var rvals []*Val
 	if res.tuple != nil {
